@@ -981,7 +981,16 @@ func (c *Ctx) sliceInstr(x *ssa.Slice, st *State) {
 		}
 		if _, ok := isScalarArray(at); !ok || (base.Loc != nil && base.Loc.Kind == LLocal) {
 			c.drop("slice-of-array")
-			c.set(x, c.freshVal(x.Type(), "arrslice"))
+			// contents (and the array object) are not modelled; length and capacity follow
+			// from the slice expression itself
+			fv := c.freshVal(x.Type(), "arrslice")
+			if fv.K == VSlice {
+				nv := *fv
+				nv.Len = c.idxSub(hi, lo)
+				nv.Cap = c.idxSub(mx, lo)
+				fv = &nv
+			}
+			c.set(x, fv)
 			return
 		}
 		c.set(x, &Val{K: VSlice, T: x.Type(), Arr: base.S, Off: lo, Len: c.idxSub(hi, lo), Cap: c.idxSub(mx, lo)})
